@@ -201,6 +201,12 @@ func (env *Env) instrEffects(sc *Script, fn *ssa.Function, in ssa.Instruction, e
 		env.callEffects(sc, fn, &x.Call, e, g)
 	case *ssa.Go:
 		env.callEffects(sc, fn, &x.Call, e, g)
+	case *ssa.Next:
+		if g != nil && !x.IsString {
+			if rng, ok := x.Iter.(*ssa.Range); ok {
+				e[g.rangeVisitedKey(rng)] = true
+			}
+		}
 	}
 }
 
@@ -239,6 +245,20 @@ func (env *Env) callEffects(sc *Script, fn *ssa.Function, c *ssa.CallCommon, e m
 					e["alloc"] = true
 					env.typeStoreEffects(sc, pt, e, false)
 				}
+				continue
+			}
+			switch a.(type) {
+			case *ssa.FieldAddr, *ssa.IndexAddr:
+				if pt := deref(a.Type()); pt != nil {
+					if _, isS := isStruct(pt); !isS {
+						if _, isArr := pt.Underlying().(*types.Array); !isArr {
+							// copy-in / copy-out of a scalar field or slice element passed by address
+							env.storeEffects(sc, a, e, g)
+							env.typeStoreEffects(sc, pt, e, false)
+							e["alloc"] = true
+						}
+					}
+				}
 			}
 		}
 	}
@@ -262,7 +282,7 @@ func (env *Env) callEffects(sc *Script, fn *ssa.Function, c *ssa.CallCommon, e m
 	if callee == nil {
 		return
 	}
-	ct, sf := env.lookupContract(callee)
+	ct, sf := env.lookupContractFrom(callee, fnPkgPath(fn))
 	if ct != nil {
 		if len(callee.Blocks) > 0 && !ct.Extern && !ct.Trusted {
 			for k := range env.Effects(callee) {
